@@ -322,7 +322,8 @@ Record pstep := mkPS {
   ps_diff : list (nat * pdist);    (* the rvs_diff handed to the loop: 0 keep, 1 add, 2 remove *)
   ps_raised : bool;                (* the invocation raised *)
   ps_log : list paction;           (* the calls the loop made, in order (PUpdate carries only the names) *)
-  ps_created : list cobs           (* the create_omega_* calls among them, with their results *)
+  ps_created : list cobs;          (* the create_omega_* calls among them, with their results *)
+  ps_removed : list (node * list nat * node)   (* OmegaRecord.remove on records without BLOCK: tree, indices, result *)
 }.
 Definition op_of_nat (n : nat) : op := match n with 0 => Keep | 1 => Add | _ => Del end.
 Fixpoint nats_eqb (a b : list nat) : bool :=
@@ -360,7 +361,11 @@ Definition pstep_verdict (p : pstep) : list nat :=
           | Ok plan => plan_matches (negb (ps_raised p)) plan (ps_log p)
           | Err _ => ps_raised p
           end) 26
-  ++ flat_map cobs_verdict (ps_created p).
+  ++ flat_map cobs_verdict (ps_created p)
+  (* 28: OmegaRecord.remove, diagonal branch *)
+  ++ flat_map (fun x => let '(before, inds, after) := x in
+                 if is_block_record before then [] else tag (node_eqb (odiag_remove before inds) after) 28)
+       (ps_removed p).
 (* 251: some invocation is outside the guard of rv_plan_realises (a record with several diagonal items
    is entered); class information only *)
 Definition pstep_aligned (p : pstep) : bool :=
